@@ -133,7 +133,6 @@ end
 structure Relax where
   lower     : Bool   -- case-insensitive short-cuts see lengths that lower-casing changes
   container : Bool   -- array / object seen as one NUL byte by a field op
-  emptyCont : Bool   -- byte_len_cmp over a value holding an empty array / object
 deriving Repr
 
 /-- the lower-casing oracle changes a length, or does not commute with the truncation the code
@@ -151,19 +150,6 @@ def lowerShape (o : Oracle) (f : FieldOp) (d : Option Bytes) : Bool :=
       o.lower ((bytesOf d).drop (blen d - m)) != (o.lower (bytesOf d)).drop (blen d - m)
     | _ => false))
 
-mutual
-  def hasEmptyCont : JTree → Bool
-    | .arr xs => xs.isEmpty || hasEmptyContList xs
-    | .obj kvs => kvs.isEmpty || hasEmptyContFields kvs
-    | _ => false
-  def hasEmptyContList : List JTree → Bool
-    | [] => false
-    | x :: xs => hasEmptyCont x || hasEmptyContList xs
-  def hasEmptyContFields : List (Bytes × JTree) → Bool
-    | [] => false
-    | (_, v) :: kvs => hasEmptyCont v || hasEmptyContFields kvs
-end
-
 def both (quirk : Bool) (sv cv : Bool) : Bool × Bool :=
   if quirk then (sv || cv, !sv || !cv) else (sv, !sv)
 
@@ -174,9 +160,7 @@ mutual
       both ((r.container && isContainer node) || (r.lower && lowerShape o f (getOf node)))
         (specField o f node) (fieldCheck o f (getOf node))
     | .lenCmp l =>
-      both (r.emptyCont && l.kind == .byte &&
-              (match dig ev l.path with | some t => hasEmptyCont t | none => false))
-        (specLen o l ev) (lenCheck o l ev)
+      both false (specLen o l ev) false
     | .tsCmp t => both false (specTs o now t ev) false
     | .checkType c => both false (specType c ev) false
     | .and ops => admitsAll r o now ev ops
